@@ -296,7 +296,7 @@ class C13(RebuildProp):
                                          (["d", "b"], rng.choice(A), "rand", False)]) for n in "XYZ"]
             c = {"version": v, "P": P, "tree": ts[0], "more_trees": ts[1:], "nsearch": 1 + k % 2, "unrelated": 1,
                  "clauses": list(self.clauses), "meta_args": ("dir", "files", "both")[k % 3 if kind != 2 else (k // 3) % 3],
-                 "route": "cli" if k % 5 == 0 else "lib"}
+                 "route": "cli" if k % 5 == 0 else "lib", "odd_metas": k % 2 == 1}
             out.append(c)
         # batches that mix piece lengths and versions, with a file of identical bytes (same pieces root, its own
         # piece-layer entry in each metafile) under different names in both torrents
